@@ -5,6 +5,7 @@ import (
 	"encoding/json"
 	"fmt"
 	"io"
+	"strconv"
 	"strings"
 
 	mxj "github.com/clbanning/mxj/v2"
@@ -294,7 +295,7 @@ func c01Cfgs(maxDev int) []Cfg {
 
 func c01Run(c *Ctx) {
 	mustBeDefault(c)
-	c.S.Rule = "cases = (document, rendering, configuration): documents are all element trees with <= N elements (child names over {a,b}, fan-out <= 3) decorated with <= D decorations (attribute incl. namespaced/case/snake variants and a name colliding with a child under an empty prefix; one text run at every position, plain or CDATA, with blanks/specials/number and boolean look-alikes; comment / processing instruction at every position; renamed element: case, hyphen/underscore, namespace prefix); every document (quick: trees with fewer than N elements) x all 768 configurations (3 attribute prefixes x 2 key prefixes x 2^7 of lower, snake, simple-as-map, keep-spaces, seq numbers, decoder escaping, cast) for <= 1 decoration, and x all configurations with <= 2 option deviations for 2 decorations; plus all 8 combinations of the cast-to-int/float/bool sub-options with the cast flag on; rendering variants (empty-element form, quoting, blanks in tags, inter-element whitespace, prolog, character references) explored one deviation at a time. non-trivial = expected Map contains a list, a text key or an attribute."
+	c.S.Rule = "cases = (document, rendering, configuration): documents are all element trees with <= N elements (child names over {a,b}, fan-out <= 3) decorated with <= D decorations (attribute incl. namespaced/case/snake variants and a name colliding with a child under an empty prefix; one text run at every position, plain or CDATA, with blanks/specials/number and boolean look-alikes; comment / processing instruction at every position; renamed element: case, hyphen/underscore, namespace prefix); every document (quick: trees with fewer than N elements) x all 768 configurations (3 attribute prefixes x 2 key prefixes x 2^7 of lower, snake, simple-as-map, keep-spaces, seq numbers, decoder escaping, cast) for <= 1 decoration, and x all configurations with <= 2 option deviations for 2 decorations; plus all 8 combinations of the cast-to-int/float/bool sub-options with the cast flag on; a scale family (33-1025 repeated and interleaved siblings, 33/129 attributes, nesting depth 64/300, text and names of 300/5000 bytes) under configurations with <= 1 deviation; rendering variants (empty-element form, quoting, blanks in tags, inter-element whitespace, prolog, character references) explored one deviation at a time. non-trivial = expected Map contains a list, a text key or an attribute."
 	c.S.Assumptions = []string{"reference decode conventions in harness/ref_xml.go, computed from the abstract tree", "_seq accepted as int or digit string", "attribute values containing tab/newline are rendered as character references"}
 	maxElems, maxElems2 := 4, 3
 	if c.Thorough {
@@ -414,10 +415,81 @@ func c01Run(c *Ctx) {
 		rev[i], rev[j] = rev[j], rev[i]
 	}
 	run(rev, small, "history-reverse-configuration-order")
+	// scale family: documents far beyond the element bound in one dimension at a time - repeated siblings
+	// (list growth through 33, 65, 129, 257, 1025 members), interleaved repeated siblings, many attributes,
+	// deep nesting (64, 300 levels), long text and long names (300, 5000 bytes) - under the configurations
+	// with <= 1 option deviation
+	var scale []job
+	for _, doc := range c01Scale() {
+		scale = append(scale, job{doc, rvDefault})
+	}
+	run(c01Cfgs(1), scale, "scale")
 	// map-order: the decoder only ranges over singleton maps; explore reverse order on phase A / default cfg anyway
 	rt.OrderPolicy = rt.PolicyReverse
 	run(c01Cfgs(1), docsA, "A-reverse-order")
 	rt.OrderPolicy = rt.PolicySorted
 	resetOptions()
 	// (the end-of-run state comparison is done for every property in main.go)
+}
+
+// c01Scale: documents that are large in one dimension.
+func c01Scale() []*XElem {
+	var out []*XElem
+	leaf := func(name, text string) XItem {
+		e := &XElem{Local: name}
+		if text != "" {
+			e.Items = []XItem{{Kind: 't', Text: text}}
+		}
+		return XItem{Kind: 'e', Elem: e}
+	}
+	for _, n := range []int{33, 65, 129, 257, 1025} {
+		// n repeated siblings; the same interleaved with a second name; with an attribute on every third
+		r1 := &XElem{Local: "r"}
+		r2 := &XElem{Local: "r"}
+		for i := 0; i < n; i++ {
+			r1.Items = append(r1.Items, leaf("a", "v"+strconv.Itoa(i)))
+			nm := "a"
+			if i%2 == 1 {
+				nm = "b"
+			}
+			it := leaf(nm, "w"+strconv.Itoa(i))
+			if i%3 == 0 {
+				it.Elem.Attrs = []XAttr{{Local: "x", Value: strconv.Itoa(i)}}
+			}
+			r2.Items = append(r2.Items, it)
+		}
+		out = append(out, r1, r2)
+	}
+	for _, n := range []int{33, 129} {
+		e := &XElem{Local: "r", Items: []XItem{leaf("a", "t")}}
+		for i := 0; i < n; i++ {
+			e.Attrs = append(e.Attrs, XAttr{Local: "x" + strconv.Itoa(i), Value: "v" + strconv.Itoa(i)})
+		}
+		out = append(out, e)
+	}
+	for _, depth := range []int{64, 300} {
+		root := &XElem{Local: "r"}
+		cur := root
+		for i := 0; i < depth; i++ {
+			nm := "a"
+			if i%2 == 1 {
+				nm = "b"
+			}
+			nx := &XElem{Local: nm}
+			if i%7 == 0 {
+				nx.Attrs = []XAttr{{Local: "x", Value: "1"}}
+			}
+			cur.Items = append(cur.Items, XItem{Kind: 'e', Elem: nx})
+			cur = nx
+		}
+		cur.Items = []XItem{{Kind: 't', Text: "bottom"}}
+		out = append(out, root)
+	}
+	for _, n := range []int{300, 5000} {
+		long := strings.Repeat("x y&z", n/5)
+		out = append(out, &XElem{Local: "r", Attrs: []XAttr{{Local: "x", Value: long}}, Items: []XItem{{Kind: 't', Text: long}, leaf("a", long)}})
+		name := strings.Repeat("n", n)
+		out = append(out, &XElem{Local: "r", Items: []XItem{leaf(name, "v"), leaf(name, "w")}, Attrs: []XAttr{{Local: name, Value: "1"}}})
+	}
+	return out
 }
